@@ -13,7 +13,7 @@ def run(P, rep, tier):
     tu = P.unit(T)
     pu = P.unit(PP)
     cu = P.unit(CG)
-    need = {T: ('remove_backslash_newline', 'tokenize', 'tokenize_file',
+    need = {T: ('tokenize', 'tokenize_file',
                 'error_tok', 'warn_tok', 'verror_at', 'error_at', 'new_file', 'tokenize_string_literal'),
             PP: ('line_macro', 'file_macro', 'read_line_marker', 'preprocess', 'preprocess2', 'expand_macro',
                  'new_num_token', 'new_str_token', 'paste'),
@@ -89,7 +89,7 @@ def decode(ctx, out):
     f.loop_line = lh[2]
     hs = _head_syms(f.head)
     evs = after(ctx, 'loop_head')
-    f.kind = 'iter' if out[0] == 'noreturn' and out[1] == '@iter_end' else ('exit' if out[0] == 'ret' else 'other')
+    f.kind = 'iter' if out[0] == 'noreturn' and out[1] == '@iter_end' else ('exit' if (out[0] == 'ret' or (out[0] == 'noreturn' and out[1] == '@loop_exit')) else 'other')
     if f.kind == 'other':
         return 'path ends in %s' % (out[1],)
     f.reads = [e[1] for e in evs if e[0] == 'bread']
@@ -97,7 +97,7 @@ def decode(ctx, out):
     ie = first(ctx, 'iter_end')
     xe = first(ctx, 'loop_exit')
     fe = first(ctx, 'fn_end')
-    f.end = ie[1] if ie is not None else (fe[1] if fe is not None else None)
+    f.end = ie[1] if ie is not None else (fe[1] if fe is not None else (xe[1] if xe is not None else None))
     f.exit_how = xe[2] if xe is not None else None
     f.exit_state = xe[1] if xe is not None else None
     if f.end is None:
@@ -188,11 +188,34 @@ def tiling(f, wr):
 
 def r181(P, u, rep):
     fn = 'remove_backslash_newline'
-    W = '%s:%d' % (T, u.fn(fn).line)
-    rep.rule('R18.1', 'remove_backslash_newline conserves newlines: per generic loop iteration, newlines consumed = newlines written + change of the pending counter; '
+    rep.rule('R18.1', 'remove_backslash_newline (or whatever loop splices lines before tokenising) conserves newlines: per generic loop iteration, newlines consumed = newlines written + change of the pending counter; '
              'the pending newlines are flushed completely at every real newline and after the loop; a byte keeps its physical line', floor=14)
-    it = CutInterp(P, u, {'assume': _assume_counters})
-    paths = it.explore(fn, lambda ctx: [Sym('P', 'char *')])
+    loop = None
+    if fn not in u.functions:
+        from ..lib_c18e import splice_sites
+        sites = splice_sites(u)
+        if len(sites) != 1:
+            rep.undecided('R18.1', '%s:%s:anchor' % (T, fn), 'remove_backslash_newline vanished and %d loops run before tokenising compare bytes with a backslash and a newline' % len(sites))
+            return
+        fn, loop = sites[0]
+    W = '%s:%d' % (T, u.fn(fn).line)
+    if loop is None:
+        it = CutInterp(P, u, {'assume': _assume_counters})
+        paths = it.explore(fn, lambda ctx: [Sym('P', 'char *')])
+    else:
+        from ..lib_c18e import ScanInterp, explore_tolerant, feasible
+        it = ScanInterp(P, u, {'assume': _assume_counters, 'cut_pred': lambda s: s.id == loop.id, 'inner_limit': 1, 'accelerate': True})
+        params = u.params(fn)
+        def mk(ctx):
+            a, used = [], False
+            for p in params:
+                t = (p.type or '')
+                if t.replace(' ', '').replace('const', '') == 'char*' and not used:
+                    a.append(Sym('P', 'char *')); used = True
+                else:
+                    a.append(it.lazy_value(t, p.name or 'arg'))
+            return a
+        paths = [(c, o) for c, o in explore_tolerant(it, fn, mk) if feasible(c) and first(c, 'loop_head') is not None]
     base = '%s:%s' % (T, fn)
     n_iter = n_exit = 0
     seen_splice = seen_nl = seen_copy = False
@@ -267,6 +290,10 @@ def r181(P, u, rep):
                 rep.ob('R18.1', base + ':byte-copied-while-newlines-pending', pinned(ctx, n0) == 0,
                        'an ordinary byte is copied to the output while removed newlines may still be pending: the text of a continuation line is placed on the line of the first physical line, so __LINE__ and diagnostics on a continuation line report the wrong (earlier) physical line',
                        where='%s:%d' % (T, copied[0][3]), facts=facts)
+        elif out[0] == 'noreturn' and out[1] == '@loop_exit':
+            n_exit += 1          # the loop works on one piece of the file: what is pending is carried to the next piece, the end of the file is not seen here
+            rep.ob('R18.1', base + ':nothing-written-at-the-end-of-a-piece', not wr and isinstance(dn, int) and dn == 0,
+                   'leaving the loop over a piece of the file writes %r and changes the pending counter by %s' % ([w[2] for w in wr], dn), where=W, facts=facts)
         else:
             n_exit += 1
             resid = lsub(lsub(0, wnl), dn)
@@ -350,26 +377,140 @@ def _shape(ctx, consumed, wr):
 
 # ------------------------------------------------------------------------------------------
 def r182(P, u, rep):
-    fn = 'canonicalize_newline'
+    from ..lib_c18e import cr_sites, mentions_cr_text
+    rep.rule('R18.2', 'the contents that are tokenised have exactly one newline per source line end, for every file and every way the file is read in pieces: '
+             'in whatever loop handles CR between reading the file and tokenising it (today canonicalize_newline), CR LF becomes one LF, a lone CR becomes LF -- '
+             'a CR is lone only when the byte that follows it IN THE FILE was looked at and is not LF --, every other byte is copied, the result is terminated; '
+             'it runs before remove_backslash_newline on the buffer that is tokenised', floor=9)
+    sites, searched = cr_sites(u)
+    W0 = '%s:%d' % (T, u.fn('tokenize_file').line)
+    if not sites:
+        from ..lib_c18e import callgraph, closure
+        later = closure(callgraph(u), ['tokenize'])
+        if mentions_cr_text(u, searched) or any(_compares_cr(u.functions[f]) for f in later):
+            rep.undecided('R18.2', '%s:tokenize_file:CR-canonicalised' % T, 'no loop run before tokenising compares a byte with CR, but CR occurs in a string literal or in the tokenizer itself: cannot tell how CR is handled', where=W0)
+        else:
+            rep.ob('R18.2', '%s:tokenize_file:CR-canonicalised' % T, False,
+                   'none of the functions tokenize_file() runs before tokenising (%s) compares a byte of the file with CR: CR LF line ends are not reduced to one newline '
+                   '(a lone CR does not end a line, `\\` before CR LF is not a line splice)' % ', '.join(searched), where=W0)
+    for fn, loop in sites:
+        _r182_stage(P, u, rep, fn, loop)
+    stage_fns = sorted(set(fn for fn, _ in sites))
+    # order of the passes in tokenize_file
+    fn2 = 'tokenize_file'
+    callees = sorted(set(c.callee() for c in u.fn(fn2).walk() if c.kind == 'CallExpr' and c.callee()))
+    it2 = Interp(P, u, {'opaque': callees + ['realloc', 'memcmp']})
+    W2 = '%s:%d' % (T, u.fn(fn2).line)
+    nret = 0
+    SPL = 'remove_backslash_newline'
+    if SPL not in u.functions:
+        from ..lib_c18e import splice_sites
+        sp = sorted(set(f for f, _ in splice_sites(u)))
+        SPL = sp[0] if len(sp) == 1 else SPL
+    for ctx, out in it2.explore(fn2, lambda ctx: [Sym('path', 'char *')]):
+        if out[0] != 'ret':
+            continue
+        calls = [e for e in ctx.events if e[0] == 'call']
+        names = [e[1] for e in calls]
+        if 'tokenize' not in names:
+            continue     # file could not be read
+        nret += 1
+        def call_of(nm):
+            for e in calls:
+                if e[1] == nm:
+                    return e
+            return None
+        crs = [n for n in names if n in stage_fns]
+        if len(set(crs)) != 1:
+            if sites:
+                rep.ob('R18.2', '%s:%s:passes-in-order' % (T, fn2), False,
+                       'tokenize_file does not run the pass that canonicalises CR (%s) exactly once before tokenising (calls: %s)' % (', '.join(stage_fns), [n for n in names if n in u.functions]), where=W2, facts={'path': ctx.trail})
+            continue
+        CRF = crs[0]
+        order = [n for n in names if n in (CRF, SPL, 'new_file', 'tokenize')]
+        ok = order == ([CRF, SPL, 'new_file', 'tokenize'] if CRF != SPL else [CRF, 'new_file', 'tokenize'])
+        if CRF == SPL:
+            rep.undecided('R18.2', '%s:%s:CR-before-splice' % (T, fn2), '%s handles CR and line splices: that a backslash before CR LF is still a splice is not decided' % CRF, where=W2)
+        rep.ob('R18.2', '%s:%s:passes-in-order' % (T, fn2), ok,
+               'the text passes run in the order %s (expected %s, remove_backslash_newline, then tokenisation): a backslash before CR LF is then not a line splice, or a pass is skipped' % (order, CRF), where=W2, facts={'path': ctx.trail})
+        ec, es = call_of(CRF), call_of(SPL)
+        if CRF == SPL:
+            es = None
+        nf = [e for e in calls if e[1] == 'new_file']
+        # the buffer the CR pass worked on: its pointer argument (a filter in place) or what it returned (the reader itself)
+        cbuf = None
+        if ec is not None:
+            cbuf = ec[4] if (ec[4] is not None and '*' in (u.fn(CRF).type or '').split('(')[0]) else (ec[2][0] if ec[2] else None)
+        b = es[2][0] if (es is not None and es[2]) else (cbuf if CRF == SPL else None)
+        okb = cbuf is not None and b is not None and isinstance(lsub(b, cbuf), int) and nf and len(nf[0][2]) > 2 and \
+            (vkey(nf[0][2][2]) == vkey(b) or (CRF == SPL and isinstance(lsub(nf[0][2][2], b), int)))
+        rep.ob('R18.2', '%s:%s:same-buffer' % (T, fn2), bool(okb), 'the passes and the tokenizer do not work on the same buffer', where=W2, facts={'path': ctx.trail})
+    if nret == 0:
+        rep.undecided('R18.2', '%s:%s:no-path' % (T, fn2), 'no path of tokenize_file reaches tokenize()', where=W2)
+
+
+def _compares_cr(fd):
+    for n in fd.walk():
+        if n.kind == 'BinaryOperator' and n.opcode in ('==', '!='):
+            for x in n.inner:
+                try:
+                    if x.strip_all().int_value() == 13:
+                        return True
+                except Exception:
+                    pass
+        if n.kind == 'CaseStmt' and n.inner:
+            try:
+                if n.inner[0].strip_all().int_value() == 13:
+                    return True
+            except Exception:
+                pass
+    return False
+
+
+def _r182_stage(P, u, rep, fn, loop):
+    """one loop that handles CR: the per-iteration law of the filter, whether it reads a NUL-terminated buffer in place or pieces of the
+    file handed over by fread (a byte beyond the end of a piece has not been looked at)"""
+    from ..lib_c18e import ScanInterp, explore_tolerant, carried_state, feasible
     W = '%s:%d' % (T, u.fn(fn).line)
     base = '%s:%s' % (T, fn)
-    rep.rule('R18.2', 'canonicalize_newline: CR LF becomes one LF, a lone CR becomes LF, every other byte is copied, the result is terminated; '
-             'it runs before remove_backslash_newline on the buffer that is tokenised', floor=9)
-    it = CutInterp(P, u, {'assume': _assume_counters})
-    paths = it.explore(fn, lambda ctx: [Sym('P', 'char *')])
+    it = ScanInterp(P, u, {'assume': _assume_counters, 'cut_pred': lambda s: s.id == loop.id, 'inner_limit': 1})
+    params = u.params(fn)
+    def mk(ctx):
+        a, used = [], False
+        for p in params:
+            t = (p.type or '')
+            if t.replace(' ', '').replace('const', '') == 'char*' and not used:
+                a.append(Sym('P', 'char *')); used = True
+            else:
+                a.append(it.lazy_value(t, p.name or 'arg'))
+        return a
+    paths = [(c, o) for c, o in explore_tolerant(it, fn, mk) if feasible(c)]
+    paths = [(c, o) for c, o in paths if first(c, 'loop_head') is not None]
     seen = set()
+    state = None
     for ctx, out, f in decode_all(paths):
         if isinstance(f, str):
             rep.undecided('R18.2', base + ':shape', 'cannot decode a path of the loop: %s' % f, where=W)
             continue
         facts = {'path': ctx.trail}
+        chunked = bool(getattr(ctx, 'c18', {}).get('chunk'))
+        nulterm = bool(getattr(ctx, 'c18', {}).get('nulterm'))
+        nested = out[0] == 'noreturn' and out[1] == '@loop_exit'
         wr = written_bytes(f)
         if wr is None or f.rcur is None or any(not (isinstance(c, int) and c == 1) for (_, c, _, _) in wr):
             rep.undecided('R18.2', base + ':shape', 'unexpected store pattern', where=W)
             continue
+        extra = sorted(k for k in f.head if k not in (f.rcur, f.wcur))
+        if extra:
+            rep.undecided('R18.2', base + ':shape', 'the loop carries state besides its read and write cursor (%s): what an iteration writes depends on earlier bytes, '
+                          'the per-iteration law of a stateless filter does not apply' % ', '.join(extra), where=W)
+            break
         if f.kind == 'exit':
-            ok = len(wr) == 1 and wr[0][2] == 0 and f.wcur is not None and same(lsub(f.end[f.wcur], f.head[f.wcur]), 0)
-            rep.ob('R18.2', base + ':terminator', ok, 'after the loop the NUL terminator is not stored at the write cursor (stale bytes of the longer CR LF text stay in the buffer and are tokenised)', where=W, facts=facts)
+            if nested:
+                rep.ob('R18.2', base + ':nothing-written-at-exit', not wr, 'leaving the loop over a piece of input writes %r' % ([w[2] for w in wr],), where=W, facts=facts)
+            else:
+                ok = len(wr) == 1 and wr[0][2] == 0 and f.wcur is not None and same(lsub(f.end[f.wcur], f.head[f.wcur]), 0)
+                rep.ob('R18.2', base + ':terminator', ok, 'after the loop the NUL terminator is not stored at the write cursor (stale bytes of the longer CR LF text stay in the buffer and are tokenised)', where=W, facts=facts)
             seen.add('exit')
             continue
         dr = lsub(f.end[f.rcur], f.head[f.rcur])
@@ -389,10 +530,28 @@ def r182(P, u, rep):
                    'CR LF is rewritten to %s instead of exactly one newline: lines of a CR/LF file are counted wrongly' % _show([known_byte(ctx, v) for v in vals]), where=where, facts=facts)
         elif dr == 1 and k0 == 13:
             seen.add('cr')
-            lone = not may_be(ctx, nxt, 10)
-            rep.ob('R18.2', base + ':lone-CR-is-newline', lone and [known_byte(ctx, v) for v in vals] == [10],
-                   ('a CR that may be followed by LF is handled on its own: CR LF then yields two newlines' if not lone else
-                    'a lone CR is rewritten to %s instead of one newline' % _show([known_byte(ctx, v) for v in vals])), where=where, facts=facts)
+            looked = any(same(a, ladd(rb, dr)) for a in f.reads)
+            if chunked and nulterm and may_be(ctx, nxt, 0):
+                looked = False        # the terminator of a piece (fgets), not a byte of the file
+            lone = looked and not may_be(ctx, nxt, 10)
+            wrote_lf = [known_byte(ctx, v) for v in vals] == [10]
+            if chunked and not looked:
+                # the CR is the last byte of a piece of input: what follows it in the file is the first byte of the next piece
+                if state is None:
+                    state = carried_state(u, loop, exclude=(f.rcur,))[0]
+                peeks = [e for e in after(ctx, 'loop_head') if e[0] == 'input']
+                if not state and not peeks:
+                    rep.ob('R18.2', base + ':CR-at-the-end-of-a-piece', False,
+                           'a CR that is the last byte of a piece of the file (the file is read piece by piece) is rewritten to %s without the byte that follows it in the file having been looked at, '
+                           'and nothing is remembered for the next piece (no variable outlives the piece): when a CR LF pair straddles the boundary the LF is copied as well, the pair yields two newlines '
+                           'and every later line of the file is numbered one too high' % _show([known_byte(ctx, v) for v in vals]), where=where, facts=facts)
+                else:
+                    rep.undecided('R18.2', base + ':CR-at-the-end-of-a-piece', 'a CR at the end of a piece of input is handled without looking at the next byte of the file; '
+                                  'whether what is carried to the next piece (%s) makes up for it is not decided' % ', '.join(sorted(state) + [e[1] for e in peeks]), where=where)
+            else:
+                rep.ob('R18.2', base + ':lone-CR-is-newline', lone and wrote_lf,
+                       ('a CR that may be followed by LF is handled on its own: CR LF then yields two newlines' if not lone else
+                        'a lone CR is rewritten to %s instead of one newline' % _show([known_byte(ctx, v) for v in vals])), where=where, facts=facts)
         elif dr == 1 and not may_be(ctx, consumed[0], 13):
             seen.add('copy')
             okc = len(vals) == 1 and byte_addr(vals[0]) is not None and same(byte_addr(vals[0]), rb)
@@ -411,34 +570,6 @@ def r182(P, u, rep):
             rep.ob('R18.2', base + ':initial-state', _initial_ok(f), 'read and write cursor do not both start at the first byte of the buffer: %r' % (f.entry,), where=W)
     if seen != {'crlf', 'cr', 'copy', 'exit'}:
         rep.undecided('R18.2', base + ':liveness', 'expected CR LF, lone CR, copy and exit paths, found %s' % sorted(seen), where=W)
-    # order of the passes in tokenize_file
-    it2 = Interp(P, u, {'opaque': ['read_file', 'canonicalize_newline', 'remove_backslash_newline', 'convert_universal_chars', 'new_file', 'tokenize', 'realloc', 'memcmp']})
-    fn2 = 'tokenize_file'
-    W2 = '%s:%d' % (T, u.fn(fn2).line)
-    nret = 0
-    for ctx, out in it2.explore(fn2, lambda ctx: [Sym('path', 'char *')]):
-        if out[0] != 'ret':
-            continue
-        calls = [e for e in ctx.events if e[0] == 'call']
-        names = [e[1] for e in calls]
-        if 'tokenize' not in names:
-            continue     # file could not be read
-        nret += 1
-        def arg0(nm):
-            for e in calls:
-                if e[1] == nm:
-                    return e[2][0]
-            return None
-        order = [n for n in names if n in ('canonicalize_newline', 'remove_backslash_newline', 'new_file', 'tokenize')]
-        ok = order == ['canonicalize_newline', 'remove_backslash_newline', 'new_file', 'tokenize']
-        rep.ob('R18.2', '%s:%s:passes-in-order' % (T, fn2), ok,
-               'the text passes run in the order %s (expected canonicalize_newline, remove_backslash_newline, then tokenisation): a backslash before CR LF is then not a line splice, or a pass is skipped' % order, where=W2, facts={'path': ctx.trail})
-        a, b = arg0('canonicalize_newline'), arg0('remove_backslash_newline')
-        nf = [e for e in calls if e[1] == 'new_file']
-        okb = a is not None and b is not None and vkey(a) == vkey(b) and nf and vkey(nf[0][2][2]) == vkey(a)
-        rep.ob('R18.2', '%s:%s:same-buffer' % (T, fn2), bool(okb), 'the passes and the tokenizer do not work on the same buffer', where=W2, facts={'path': ctx.trail})
-    if nret == 0:
-        rep.undecided('R18.2', '%s:%s:no-path' % (T, fn2), 'no path of tokenize_file reaches tokenize()', where=W2)
 
 
 # ------------------------------------------------------------------------------------------
